@@ -148,11 +148,11 @@ Proof. exact top_level_ignore_honoured. Qed.
 Print Assumptions C05_top_level_ignore.
 
 (* 7. the listed defects are confined: the vector claimed for the current tree meets the specification on every
-      project configured through .thailint.yaml only, without CLI threshold options, well-typed limits, for the
+      project configured through .thailint.yaml / .thailint.json, without CLI threshold options, well-typed limits, for the
       units none of whose flags is listed (partial: the full statement is 0) *)
 Theorem C05_actual_partial : forall c,
   unit_clean (c_unit c) = true -> case_good c = true -> lang_good c = true ->
-  p_json (c_proj c) = Absent -> p_pyproject (c_proj c) = Absent -> p_dash (c_proj c) = None -> c_overrides c = [] ->
+  p_pyproject (c_proj c) = Absent -> p_dash (c_proj c) = None -> c_overrides c = [] ->
   (forall k raw, spec_selected c = LDoc k raw ->
      no_type_error (doc_opts (c_unit c)) (doc_guards (c_unit c)) (spec_res c (section_of (c_unit c) raw))) ->
   (forall k raw, spec_selected c = LDoc k raw ->
@@ -166,7 +166,8 @@ Print Assumptions C05_actual_partial.
       rows, defaults incl. `enabled`, guards, per-language options, exit codes *)
 Theorem C05_generated_layer :
   discovery_order = [".thailint.yaml"; ".thailint.json"] /\ pyproject_name = "pyproject.toml"
-  /\ pyproject_table = ["tool"; "thailint"] /\ (norm_from = "-" /\ norm_to = "_")
+  /\ pyproject_table = ["tool"; "thailint"] /\ pyproject_error_swallowed = false
+  /\ repo_ignore_files = [".thailintignore"; ".thailint.yaml"; ".thailint.json"] /\ (norm_from = "-" /\ norm_to = "_")
   /\ (file_parser_normalises = true /\ pyproject_parser_normalises = true) /\ retry_exceptions = ["TypeError"]
   /\ valid_suffixes = doc_valid_suffixes /\ map row_proj cli_overrides = doc_cli_opts
   /\ (value_error_reraised = true /\ error_exit_code = 2 /\ exit_with_violations = 1 /\ exit_clean = 0)
@@ -174,15 +175,15 @@ Theorem C05_generated_layer :
   /\ (forall u, In u units -> guards_of guards u = doc_guards u)
   /\ (forall u, In u units -> gen_lang_opts u ++ doc_extra_lang_opts u = doc_lang_opts u).
 Proof.
-  exact (conj F_discovery (conj F_pyname (conj F_pytable (conj F_norm (conj F_parsers (conj F_retry (conj F_suffixes (conj F_cli (conj F_errors
-        (conj F_opts (conj F_guards F_lang))))))))))).
+  exact (conj F_discovery (conj F_pyname (conj F_pytable (conj F_py_swallow (conj F_repo_files (conj F_norm (conj F_parsers (conj F_retry (conj F_suffixes (conj F_cli (conj F_errors
+        (conj F_opts (conj F_guards F_lang))))))))))))).
 Qed.
 Print Assumptions C05_generated_layer.
 
-(* the CLI-override defect is confined: --max-depth reaches the python/typescript/javascript sub-sections (rust is
-   the listed defect); the other options reach no language sub-section (listed for srp; dry/pipeline have none) *)
+(* --max-depth reaches every language sub-section (repaired: rust included); the other options reach no language
+   sub-section (listed defect for srp; dry/pipeline have none) *)
 Theorem C05_cli_override_rows : map row_langs cli_overrides =
-  [("nesting", "--max-depth", ["python"; "typescript"; "javascript"]); ("srp", "--max-methods", []); ("srp", "--max-loc", []);
+  [("nesting", "--max-depth", ["python"; "typescript"; "javascript"; "rust"]); ("srp", "--max-methods", []); ("srp", "--max-loc", []);
    ("dry", "--min-lines", []); ("pipeline", "--min-continues", [])].
 Proof. exact F_override_langs. Qed.
 Print Assumptions C05_cli_override_rows.
@@ -198,5 +199,5 @@ Example C05_nonvacuous :
   flags_off ideal /\ case_good ex_case = true /\ lang_good ex_case = true
   /\ spec ex_case = Ran 0 /\ run ideal ex_case = Ran 0
   /\ spec (with_proj ex_case (only_yaml [("nesting", VMap [("max_nesting_depth", VInt 3%Z)])])) = Ran 0
-  /\ run config_actual ex_case = Ran 1.
+  /\ run config_actual ex_case = Ran 0.
 Proof. split; [exact ideal_off|]. vm_compute. repeat split; reflexivity. Qed.
